@@ -7,6 +7,7 @@ import (
 
 // simState is the generator's rough idea of the chain (guidance only; never used as an oracle).
 type simState struct {
+	justAdmitted int // validator admitted most recently (hazard: operate on it again right away)
 	power   map[int]int64 // active validators -> power
 	pending map[int]bool
 	removed map[int]bool
@@ -205,6 +206,7 @@ func (s *simState) genWorkflow(r *rand.Rand) MsgSpec {
 			p := pick(r, []uint64{1, 1, 2, 3, 5, 10})
 			delete(s.pending, id)
 			s.power[id] = int64(p)
+			s.justAdmitted = id
 			return sp(adminID, id, p*M, r.Intn(3) == 0)
 		}
 		fallthrough
@@ -237,7 +239,15 @@ func (s *simState) genWorkflow(r *rand.Rand) MsgSpec {
 
 func (s *simState) genHazard(r *rand.Rand, g Genesis) MsgSpec {
 	M := uint64(1_000_000)
-	switch r.Intn(12) {
+	switch r.Intn(14) {
+	case 12, 13: // operate again on the validator admitted last (same block or the next)
+		v := s.justAdmitted
+		if _, ok := s.power[v]; ok {
+			if r.Intn(2) == 0 {
+				return rm(adminID, v)
+			}
+			return sp(adminID, v, uint64(pick(r, []int64{1, 2, 5, s.power[v]}))*M, true)
+		}
 	case 0: // return to an earlier power
 		v := s.anyActive(r)
 		if hs := s.history[v]; len(hs) > 0 {
